@@ -479,16 +479,25 @@ class C20(Prop):
                 raise Violation("C20.false_alarm", "%s:%s" % (how, outcome.split(":", 1)[-1]),
                                 "compare() raised %s (%s) on a faithful copy" % (outcome, getattr(w, "last_error", "")))
             self.form_b = fb
+            self.flags_b = _stored_flags(b)
             w.count("probe.faithful_accepted")
         else:
             fb = named(b)
-            if dict_diff(self.form_b, fb) is None:
+            if dict_diff(self.form_b, fb) is None and _stored_flags(b) == self.flags_b:
                 w.count("probe.mutation_not_effective")
                 return
+            if dict_diff(self.form_b, fb) is None:
+                fb = dict(fb, stored_array_flags="changed")     # (the fault is visible in the stored flag only)
             w.count("probe.mutation.%s" % self.mutation)
             if outcome == "ok":
                 raise Violation("C20.missed.%s" % self.mutation, how, "compare() returned although the copy differs: %s" % (
                     dict_diff(self.form_b, fb)))
+
+
+def _stored_flags(n):
+    """The scalar/array flag of every port as STORED (a one-pin port is an array or a scalar by this flag alone)."""
+    return tuple((lib.name, d.name, p.name, getattr(p, "_is_scalar", None))
+                 for lib in n.libraries for d in lib.definitions for p in d.ports)
 
 
 PROP = C20
